@@ -165,10 +165,12 @@ func ListColumnNamesHandler(ctx *fasthttp.RequestCtx, orgId int64) {
 	tRange.StartEpochMs = startEpoch
 	tRange.EndEpochMs = endEpoch
 
+	// Read the open segments first: a segment that rotates in between is added to the
+	// rotated metadata before it is removed from the unrotated info, so it is seen at least once.
 	resAllColumns := make(map[string]struct{})
-	metadata.CollectColumnsForTheIndexesByTimeRange(tRange, allIndexNames, orgId, resAllColumns)
 	writer.CollectUnrotatedColumnsForTheIndexesByTimeRange(tRange, allIndexNames, orgId,
 		resAllColumns)
+	metadata.CollectColumnsForTheIndexesByTimeRange(tRange, allIndexNames, orgId, resAllColumns)
 
 	allCnamesResp := utils.GetKeysOfMap(resAllColumns)
 
